@@ -10,6 +10,7 @@ package c05
 import (
 	"encoding/json"
 	"fmt"
+	"os"
 	"sort"
 	"testing"
 	"time"
@@ -20,7 +21,13 @@ import (
 	"verifharness/internal/sim"
 )
 
-func TestMain(m *testing.M) { ev.Main(m, "C05") }
+func TestMain(m *testing.M) {
+	if os.Getenv("C05_CHILD") != "" {
+		panicChild()
+		os.Exit(0)
+	}
+	ev.Main(m, "C05")
+}
 
 type Step struct {
 	Op    string `json:"op"` // pub | pubrel | sweep
@@ -174,6 +181,8 @@ func run(c Case) (f *failure, nontrivial bool) {
 				}
 				failing[ni] = true
 				switch {
+				case st.Mode == "panic":
+					cl.Nodes[ni].Log.PanicNext(1, panicHook)
 				case ni == 0:
 					cl.Nodes[0].Log.FailNext(1)
 				case st.Mode == "lostreply":
@@ -194,6 +203,7 @@ func run(c Case) (f *failure, nontrivial bool) {
 			cl.SetUnreachable()
 			for _, n := range cl.Nodes {
 				n.Log.FailNext(0)
+				n.Log.PanicNext(0, nil)
 				n.Log.HangNext(0, 0)
 				n.LoseReplies(0)
 			}
